@@ -255,8 +255,14 @@ class DataArray:
             out = _and(out, v)
         return DataArray((), {}, {(): out}, self.name)
 
-    def copy(self, deep=True):
-        return DataArray(self.dims, self.coords_, dict(self.cells), self.name, self.attrs)
+    def copy(self, deep=False):
+        # xarray's default is a SHALLOW copy: the data buffer is shared
+        cells = dict(self.cells) if deep else self.cells
+        return DataArray(self.dims, self.coords_, cells, self.name, self.attrs)
+
+    def set_cell(self, key, value):
+        """in-place edit of the data buffer (what `da.values[...] = v` does)"""
+        self.cells[key] = value
 
     def to_dataset(self, name=None):
         name = name or self.name
@@ -265,7 +271,7 @@ class DataArray:
         ds = Dataset()
         for d in self.dims:
             ds._coords[d] = list(self.coords_[d])
-        ds._vars[name] = self.copy()
+        ds._vars[name] = self.copy(deep=True)
         ds._vars[name].name = name
         return ds
 
@@ -405,7 +411,7 @@ class Dataset:
         if isinstance(spec, DataArray):
             for d in spec.dims:
                 self._merge_dim(d, spec.coords_[d])
-            da = spec.copy()
+            da = spec.copy(deep=True)
             da.name = name
             self._vars[name] = da
             return
@@ -518,12 +524,12 @@ class Dataset:
         self._add_var(k, v)
 
     # -- xarray API used by xyzpy
-    def copy(self, deep=True):
+    def copy(self, deep=False):
         out = Dataset()
         out._coords = {k: list(v) for k, v in self._coords.items()}
         out._nocoord = set(self._nocoord)
         out._scalar_coords = dict(self._scalar_coords)
-        out._vars = {k: v.copy() for k, v in self._vars.items()}
+        out._vars = {k: v.copy(deep=deep) for k, v in self._vars.items()}
         out.attrs = dict(self.attrs)
         return out
 
@@ -537,7 +543,7 @@ class Dataset:
         return self
 
     def _map(self, f):
-        out = self.copy()
+        out = self.copy(deep=True)
         out._vars = {k: v._map(f) for k, v in self._vars.items()}
         return out
 
@@ -589,7 +595,7 @@ class Dataset:
         out._scalar_coords.update(ind)
         for n, da in self._vars.items():
             sub = {d: l for d, l in ind.items() if d in da.dims}
-            out._vars[n] = da.sel(sub) if sub else da.copy()
+            out._vars[n] = da.sel(sub) if sub else da.copy(deep=True)
         return out
 
     def expand_dims(self, name):
@@ -615,7 +621,7 @@ class Dataset:
     def drop_sel(self, labels=None, *, errors="raise", **kw):
         ind = dict(labels or {})
         ind.update(kw)
-        out = self.copy()
+        out = self.copy(deep=True)
         for d, labs in ind.items():
             if d not in out._coords:
                 raise ValueError("dimension %r not found" % (d,)) if errors == "raise" else None
@@ -709,7 +715,7 @@ class Dataset:
         fs = _FS[0]
         if fs is None:
             raise RuntimeError("MiniXR: no file system installed")
-        fs.put(file_name, ("NETCDF", engine, dict(kw), self.copy()))
+        fs.put(file_name, ("NETCDF", engine, dict(kw), self.copy(deep=True)))
 
     def to_zarr(self, file_name, **kw):
         raise NotImplementedError("zarr engine not available")
@@ -723,7 +729,7 @@ def open_dataset(file_name, engine=None, chunks=None, **kw):
     obj = fs.get(file_name)
     if not (isinstance(obj, tuple) and obj and obj[0] == "NETCDF"):
         raise OSError("not a netcdf file: %r" % (file_name,))
-    ds = obj[3].copy()
+    ds = obj[3].copy(deep=True)
     ds._opened_with = dict(engine=engine, chunks=chunks)
     return ds
 
@@ -751,7 +757,7 @@ def concat(objs, dim, join="outer", **kw):
                 if len(o._coords[d]) != len(first._coords[d]):
                     raise ValueError("cannot align objects with join='override' with matching indexes along "
                                      "dimension %r that don't have the same size" % (d,))
-            q = o.copy()
+            q = o.copy(deep=True)
             for d in first._coords:
                 if list(q._coords[d]) != list(first._coords[d]):
                     q._relabel(d, q._coords[d], list(first._coords[d]))
@@ -796,7 +802,7 @@ def concat(objs, dim, join="outer", **kw):
 
 def merge(objs, compat="no_conflicts", join="outer"):
     objs = [o.to_dataset() if isinstance(o, DataArray) else o for o in objs]
-    out = objs[0].copy() if objs else Dataset()
+    out = objs[0].copy(deep=True) if objs else Dataset()
     for o in objs[1:]:
         out = out.merge(o, compat=compat)
     return out
@@ -821,14 +827,14 @@ class MiniXRModule:
 class MiniJoblib:
     @staticmethod
     def dump(obj, file_name, **kw):
-        _FS[0].put(file_name, ("JOBLIB", obj.copy() if hasattr(obj, "copy") else obj))
+        _FS[0].put(file_name, ("JOBLIB", obj.copy(deep=True) if hasattr(obj, "copy") else obj))
 
     @staticmethod
     def load(file_name, **kw):
         obj = _FS[0].get(file_name)
         if not (isinstance(obj, tuple) and obj and obj[0] == "JOBLIB"):
             raise OSError("not a joblib dump: %r" % (file_name,))
-        return obj[1].copy() if hasattr(obj[1], "copy") else obj[1]
+        return obj[1].copy(deep=True) if hasattr(obj[1], "copy") else obj[1]
 
 
 def install(env, cr, ca, cp, fm, mg):
